@@ -22,7 +22,8 @@ RULE = ("Hypothesis draws (T<=3) rasters from 1x1 to ~60x60 with 1..40 zones (in
         "math.fsum per zone; |mean - mean*| <= 2 ulp_dtype(mean*) (+ the a-priori bound n*2^-53*mean|x| of float64 recursive "
         "summation for non-integral float data), count == dtype(count*), empty zone -> (NaN, 0), permutation invariance within the "
         "same bound. Non-trivial: >= 2 pixels in some zone and (nodata present or >= 2 zones); distinct by content hash. "
-        " Added after the fourth seeded round: Narrow integer cubes with a nodata attribute outside their dtype; sub-check 'history': cube and zone raster edited in place between zonal.mean()/do_mean() calls.")
+        " Added after the fourth seeded round: Narrow integer cubes with a nodata attribute outside their dtype; sub-check 'history': cube and zone raster edited in place between zonal.mean()/do_mean() calls. "
+        " Added after the fifth seeded round: Two lazy means over the same zone values with different zone nodata evaluated in one graph.")
 ASSUME = ["Python integers / math.fsum as exact arithmetic"]
 
 
